@@ -17,14 +17,25 @@ on a freshly built schema ``S`` and compares S2 with a pristine twin ``S0``
     ``to_script`` must still read back equal to S afterwards
                             (source-mutated, earlier-yaml-unequal-after-writer)
   * any exception in write / read / rewrite                     (<stage>-exc:<Type>)
+  * the file form of the route (``to_yaml(S, path)`` / ``to_json(S, path)``
+    / ``to_script(S, path)``, then ``from_yaml(path)`` / ``from_json(Path)``
+    / exec of the file) when the string form held: the file reads back
+    equal to S0 and writing what was read gives the same file
+                         (file-exc:<Type>, file-read-differs, file-2nd-gen-differs)
 
 ``minimise`` removes spec features one at a time (real re-executions) while a
 given failure kind persists, so that the classifier sees a minimal witness.
 """
 from __future__ import annotations
 
+import atexit
 import copy
+import itertools
 import json
+import os
+import shutil
+import tempfile
+from pathlib import Path
 
 from . import fingerprint as F, harness as H, snap as SN
 from . import c12_gen as G
@@ -211,6 +222,87 @@ def _read(route, text):
     return ns["schema"]
 
 
+_scratch = {"dir": None, "n": itertools.count()}
+
+
+def _scratch_path(ext):
+    """A fresh file name in a per-process scratch directory (removed at
+    exit; nothing is read from it that this process did not just write)."""
+    if _scratch["dir"] is None or not os.path.isdir(_scratch["dir"]):
+        _scratch["dir"] = tempfile.mkdtemp(prefix="pvm_c12_")
+        atexit.register(shutil.rmtree, _scratch["dir"], ignore_errors=True)
+    return os.path.join(_scratch["dir"],
+                        f"schema_{next(_scratch['n'])}.{ext}")
+
+
+def _file_route(route, S, S0, r):
+    """File form of one route, judged only when the string form held: what
+    is read from the written file equals the original, and writing that to a
+    second file gives the same file.  (That the file holds the same text as
+    the string form is not promised and not judged.)"""
+    import pandera.io as io
+    ext = {"yaml": "yaml", "json": "json", "script": "py"}[route]
+    writer = {"yaml": io.to_yaml, "json": io.to_json,
+              "script": io.to_script}[route]
+    p1, p2 = _scratch_path(ext), _scratch_path(ext)
+
+    def slurp(path):
+        with open(path, "rb") as f:
+            return f.read()
+
+    def read(path):
+        if route == "yaml":
+            return io.from_yaml(path)
+        if route == "json":
+            return io.from_json(Path(path))
+        ns = {}
+        exec(compile(slurp(path).decode("utf-8"), "<to_script file>",
+                     "exec"), ns)
+        return ns["schema"]
+
+    try:
+        try:
+            writer(S, p1)
+            b1 = slurp(p1)
+        except Exception as e:
+            r.fail(f"file-exc:{type(e).__name__}", "write: " + _exc(e))
+            return
+        r.stages.append("file-write")
+        try:
+            S3 = read(p1)
+        except Exception as e:
+            r.fail(f"file-exc:{type(e).__name__}", "read: " + _exc(e))
+            return
+        r.stages.append("file-read")
+        r.monitors.append("file-read-equals-original")
+        dm = [x for x in all_diffs(proj(S0), proj(S3)) if not x[3]]
+        try:
+            eq = bool(S3 == S0)
+        except Exception:
+            eq = False
+        if dm or not eq:
+            r.fail("file-read-differs", {
+                "path": ".".join(map(str, dm[0][0])) if dm else "==",
+                "orig": dm[0][1] if dm else None,
+                "back": dm[0][2] if dm else None})
+        try:
+            writer(S3, p2)
+            b2 = slurp(p2)
+        except Exception as e:
+            r.fail(f"file-exc:{type(e).__name__}", "rewrite: " + _exc(e))
+            return
+        r.monitors.append("file-second-generation")
+        if b2 != b1:
+            r.fail("file-2nd-gen-differs", _first_text_diff(
+                b1.decode("utf-8", "replace"), b2.decode("utf-8", "replace")))
+    finally:
+        for p in (p1, p2):
+            try:
+                os.unlink(p)
+            except OSError:
+                pass
+
+
 class Result:
     def __init__(self):
         self.kinds = []        # failure kind strings (ordered, unique)
@@ -231,12 +323,17 @@ def _exc(e):
     return f"{type(e).__name__}: {msg[:220]}"
 
 
-def evaluate(spec, route, probes=None, twin_verdicts=None, want=None):
+def evaluate(spec, route, probes=None, twin_verdicts=None, want=None,
+             file_route=False):
     """Execute one route on a fresh build of ``spec``.
 
     ``want``: when given (a failure kind), stop as soon as it is decided and
     skip monitors that cannot produce it (used by the minimiser).
+    ``file_route``: also run the file form of the route (always when ``want``
+    is a file-* kind).
     """
+    if want is not None:
+        file_route = want.startswith("file-")
     r = Result()
     try:
         S = G.build(spec)
@@ -357,6 +454,9 @@ def evaluate(spec, route, probes=None, twin_verdicts=None, want=None):
             if a != b:
                 r.fail("verdict-differs", {"probe": i, "orig": a, "back": b})
                 break
+    # ---- file form (only when the string form held: one cause, one report)
+    if file_route and not r.kinds:
+        _file_route(route, S, S0, r)
     return r
 
 
